@@ -68,6 +68,25 @@ class ClassWorld:
                                         self.genv[e.id] = x
         for exc in ("TypeError", "ValueError", "IndexError", "KeyError", "RuntimeError", "NotImplementedError"):
             self.genv[exc] = (lambda exc: lambda *a: Tag(exc))(exc)
+        # default argument values are computed when the `def` statement runs, i.e. at import: a default such as
+        # `flag: bool = config.use_graph_primitive` freezes what the configuration said then.  What cannot be evaluated now is left
+        # to the first call (FunctionValue keeps it from then on).
+        memo = self.genv.setdefault("__defaults__", {})
+        for m in modules:
+            for fn in ast.walk(m.tree):
+                if not isinstance(fn, (ast.FunctionDef, ast.AsyncFunctionDef)):
+                    continue
+                params = [a.arg for a in fn.args.posonlyargs + fn.args.args]
+                pairs = list(zip(params[len(params) - len(fn.args.defaults):], fn.args.defaults))
+                pairs += [(a.arg, d) for a, d in zip(fn.args.kwonlyargs, fn.args.kw_defaults) if d is not None]
+                for pname, d in pairs:
+                    if isinstance(d, ast.Constant) or (id(fn), pname) in memo:
+                        continue
+                    try:
+                        self.ev.steps = 0
+                        memo[(id(fn), pname)] = self.ev.eval(d, self.genv)
+                    except (Undecided, Exception):
+                        continue
 
     # -- class structure -------------------------------------------------------------------
     def _bases(self, name: str) -> List[str]:
